@@ -294,6 +294,8 @@ def havoc_loc(ip, loc):
     elif kind == 'ghost':
         _, key, maker = loc
         st.ghost[key] = maker(ip)
+    elif kind == 'heapcls':
+        pass          # writes to fields of (fresh) objects of a class: allowed, nothing to havoc
     else:
         raise ValueError(loc)
 
